@@ -86,6 +86,10 @@ class CoETerminal(busmodel.TerminalModel):
         dlen, addr, prio, typ = pysym.sym_unpack_from("<HHBB", msg, 0)
         self.messages.append(("out", dlen + 6))
         self.counters.append(int((typ >> 4) & 7))
+        if self.responses:
+            self.violations.append("a new request is written while the "
+                                   "response to the previous one has not "
+                                   "been fetched (exchanges interleave)")
         if not bool(dlen + 6 <= self.out_sz):
             raise busmodel.Rejected("mailbox message longer than the mailbox")
         if not bool(dlen + 6 == total):
